@@ -99,6 +99,18 @@ META = {
         "note": TIE + " 'true count reaches the threshold ⇒ tracked' is proved for add-only histories (with illegitimate removals the estimate itself can be below the true count).",
         "technique": "Lean 4 proof (table invariants over histories, abstracted from the sketch then linked to it) + correspondence",
     },
+    "C05": {
+        "text": "load (export s) = .ok s as FULL state equality, for every successful export of every well-formed state, for all six formats: Bloom (binary and hex, same payload and footer values), counting Bloom, expanding/rotating (queue limit re-supplied), count-min family (mode re-supplied), cuckoo and counting cuckoo (other settings from the template) — C05_*_roundtrip, *_stable; well-formedness is proved for new and preserved by every operation, and for cuckoo filters every state reachable from new round-trips with no hypothesis (C05_cuckoo_roundtrip_reachable) and the loaded table satisfies the C15 invariant again (C05_cuckoo_loaded_inv). Tie: every suite exports through every channel the class offers (path, file object, bytes(), hex, frombytes, filepath=, load_error_rate) in all reachable states and compares raw bytes and the reloaded object's complete observation set.",
+        "design_ref": "§4 C05",
+        "note": TIE + " Geometry re-derivation on load is the parameter `geom` with the hypothesis that it returns the stored geometry (C07_stable + sizing correspondence).",
+        "technique": "Lean 4 proof (codec round-trip lemmas, per-format decode∘encode = id) + correspondence over all channels",
+    },
+    "C06": {
+        "text": "The model's export equals an independently written layout specification (Spec/Layout.lean: documented cell arrays and footers, little-endian codecs written out again, documented FNV-1a hashing rule with the published constants) as a total characterisation for Bloom, hex, counting Bloom, count-min (row-major), expanding/rotating, cuckoo and counting cuckoo (C06_*_file); bit/cell addressing theorems; reference READERS working on the file bytes agree with the library for Bloom, counting Bloom, count-min min/mean/mean-min (C06_reader_*); reference WRITERS reproduce the library's file from the key list for Bloom, counting Bloom, count-min, expanding and rotating (C06_writer_*). The constants/layouts of the model are regenerated from the source on every run, the spec pins the documented ones. Tie: payload of every export channel + cells after every add; search: independent Python reference reader/writer.",
+        "design_ref": "§4 C06",
+        "note": TIE + " No reference writer for the cuckoo formats (the file is pinned as a function of the table; which table results is C03/C15). A compiled C reader is not part of the registered checks.",
+        "technique": "Lean 4 proof (model encode = independent layout spec; reference reader/writer equivalence) + translator-regenerated layouts + correspondence",
+    },
 }
 
 ALL = ["C%02d" % i for i in range(1, 21)]
